@@ -687,24 +687,30 @@ func (u *Universe) familyTemplate(fi *FuncInfo, fam *FamilySpec, st *SpecTables)
 			t.ResSort = u.sortOfType(rt)
 			rv := SV{T: Term{S: "fpres", Sort: t.ResSort}, GoT: rt}
 			var conj []Term
-			if fam.StopSpec != nil {
-				env2.Vars["cutval"] = rv
-				g := env2.evalBool(fam.StopSpec)
-				if env2.Err == nil {
-					conj = append(conj, g)
-				}
-			} else {
-				env2.Vars["result"] = rv
-				env2.Vars["res0"] = rv
-				for _, en := range fi.Contract.Ensures {
-					if hasLabel(en.Labels, labels) {
-						g := env2.evalBool(en.Expr)
-						if env2.Err == nil {
-							conj = append(conj, g)
-						}
-						env2.Err = nil
+			env2.Vars["result"] = rv
+			env2.Vars["res0"] = rv
+			for _, en := range fi.Contract.Ensures {
+				if hasLabel(en.Labels, labels) {
+					g := env2.evalBool(en.Expr)
+					if env2.Err == nil {
+						conj = append(conj, g)
 					}
+					env2.Err = nil
 				}
+			}
+			if fam.StopSpec != nil {
+				// the stop assertion speaks about the cut value, which equals the final result for the neutral completion used
+				// in replays; a family whose paths may return before the cut states its own replay judgement (`judge EXPR`)
+				env2.Vars["cutval"] = rv
+				spec := fam.StopSpec
+				if fam.Judge != nil {
+					spec = fam.Judge
+				}
+				g := env2.evalBool(spec)
+				if env2.Err == nil {
+					conj = []Term{g}
+				}
+				env2.Err = nil
 			}
 			t.Post = tAnd(conj...)
 		}
